@@ -276,6 +276,7 @@ static void cache_key(struct vbuf *b)
 	vb_puts(b, "}");
 }
 
+static bool has_cache_data(unsigned int mask);
 static const char *WHERE = "?";
 
 static void state_key(struct vbuf *b)
@@ -354,7 +355,7 @@ static void on_state(const struct rtr_socket *s, const enum rtr_socket_state st,
 			MON.sn = LAST.eod_serial;
 			MON.reset_cause = false;
 		}
-		if (MON.in_continuation && !foreign && mask == cache_mask_for_version(cache_cur(&CACHE)->mask, SOCK->version)) {
+		if (MON.in_continuation && !foreign && has_cache_data(mask)) {
 			MON.converged = true;
 			env_end_run(PARK_HORIZON);
 		}
@@ -461,6 +462,23 @@ static void sut_build(void)
 	MON.v = 1;
 	memset(&LAST, 0, sizeof(LAST));
 	vb_reset(&EVENTS);
+}
+
+/*
+ * C08: has the client the cache's current data?  Under protocol version 0 router keys cannot be transported, so
+ * what a client that came down to version 0 still holds of keys learned earlier under version 1 is outside
+ * what the cache can say anything about; only the prefix part is compared then (see DESIGN section 5).
+ */
+static bool has_cache_data(unsigned int mask)
+{
+	unsigned int want = cache_cur(&CACHE)->mask;
+
+	if (SOCK->version == 0) {
+		unsigned int pfx = (1u << U_NPFX) - 1;
+
+		return (mask & pfx) == (want & pfx);
+	}
+	return mask == want;
 }
 
 static void sut_destroy(void)
@@ -1092,7 +1110,7 @@ static void cont_check_bound(void)
 			bool foreign;
 			unsigned int mask = sock_mask(&foreign);
 
-			if (!foreign && mask == cache_mask_for_version(cache_cur(&CACHE)->mask, SOCK->version)) {
+			if (!foreign && has_cache_data(mask)) {
 				MON.converged = true;
 				env_end_run(PARK_HORIZON);
 			}
@@ -1232,10 +1250,11 @@ static void setup_menus(void)
 		IDLE_MENU[NIDLE++] = I_ERROR;
 		IDLE_MENU[NIDLE++] = I_PUBLISH;
 		CFG_CONT_STEPS = is_prop("C08");
-		if (is_prop("C15R")) {
-			menu_add(RS_ERR_UNSUPP_LOWER);
-			menu_add(RS_V0_ANSWER);
-		}
+		/* faults that change the protocol version, and a transport error in the middle of a payload */
+		menu_add(RS_ERR_UNSUPP_LOWER);
+		menu_add(RS_V0_ANSWER);
+		if (is_prop("C08"))
+			menu_add(RS_CUT_ERR);
 	} else if (is_prop("C17")) {
 		menu_add(RS_OK_NEW);
 		menu_add(RS_TIMEOUT);
